@@ -66,6 +66,18 @@ fn check_one<T: SwiftMessageBody + serde::de::DeserializeOwned + Clone>(
     if vr.is_valid != full.is_empty() || vr_codes != codes(&full) {
         fails.push((format!("adapter|SwiftMessage::validate|MT{code}"), json!({"type": code, "flag": vr.is_valid, "adapter_codes": vr_codes, "full": full, "json": j})));
     }
+    // the auto-detecting wrapper built from the same value (its JSON form is the message's with an `mt_type` tag): reaches messages
+    // the MT parser would refuse (a rule violation that only a message built in memory / from JSON can carry)
+    {
+        let mut jw = after.clone();
+        if let Value::Object(o) = &mut jw { o.insert("mt_type".into(), json!(format!("{code:03}"))); }
+        if let Ok(p) = serde_json::from_value::<swift_mt_message::ParsedSwiftMessage>(jw) {
+            let w = p.validate();
+            if w.is_valid != full.is_empty() || w.errors.len() != full.len() {
+                fails.push((format!("adapter|ParsedSwiftMessage::validate|MT{code} (from value)"), json!({"type": code, "flag": w.is_valid, "wrapper_errors": w.errors.len(), "full": full, "json": j})));
+            }
+        }
+    }
     // plugin_mode: 0 never, 1 always, 2 whenever the message violates a rule
     if plugin_mode == 1 || (plugin_mode == 2 && !full.is_empty()) {
         // wrapper + plugin verdicts on the serialised text, against the typed API on the same text
